@@ -75,7 +75,97 @@ def check_c01(seed, tier):
                     viol.append({"case": case, "what": "loaded image differs from the samples written" if err is None else err})
                 elif len(samples) < 2:
                     samples.append({**case, "shape": [n, m], "first_sample_bits": hex(int(products.bits(got).ravel()[0]))})
+    # "for any image size": an image file LARGER THAN 4 GiB (a full level-1.1 scene), served by a virtual filesystem whose
+    # content is a function of the byte position — lines below, across and beyond the 2**32 byte mark hold their own samples
+    v, e, d = huge_image_lines(rng, tier)
+    viol += v
+    evals += e
+    distinct |= d
     return {"name": "oracle:C01 pixel fidelity", "evaluations": evals, "distinct": len(distinct), "violations": viol, "samples": samples}
+
+
+class _VirtualFile:
+    """read-only file object over computed content (byte p = f(p)); seek/read only"""
+
+    def __init__(self, size, salt):
+        self.size, self.salt, self.pos, self.closed = size, salt, 0, False
+
+    def __enter__(self):
+        return self
+
+    def __exit__(self, *a):
+        self.closed = True
+
+    def close(self):
+        self.closed = True
+
+    def seek(self, pos, whence=0):
+        self.pos = pos if whence == 0 else (self.pos + pos if whence == 1 else self.size + pos)
+        return self.pos
+
+    def tell(self):
+        return self.pos
+
+    def read(self, n=-1):
+        stop = self.size if n is None or n < 0 else min(self.size, self.pos + n)
+        out = virtual_bytes(self.salt, self.pos, max(self.pos, stop))
+        self.pos = max(self.pos, stop)
+        return out
+
+
+def virtual_bytes(salt, start, stop):
+    p = np.arange(start, stop, dtype=np.uint64)
+    return (((p * np.uint64(2654435761) + np.uint64(salt)) >> np.uint64(11)) & np.uint64(0xFF)).astype(np.uint8).tobytes()
+
+
+class _VirtualFS:
+    """the two things `Array` needs from a filesystem"""
+
+    def __init__(self, size, salt):
+        self.size, self.salt, self.path = size, salt, "/virtual"
+
+    def open(self, url, mode="rb", **kw):
+        return _VirtualFile(self.size, self.salt)
+
+
+def huge_image_lines(rng, tier):
+    from ceos_alos2.array import Array
+    viol, evals, distinct = [], 0, set()
+    for _ in range(2 if tier == "quick" else 8):
+        tc = rng.choice(["IU2", "C*8"])
+        bpp, P = (2, 192) if tc == "IU2" else (8, 544)
+        m = rng.randint(40000, 90000) if tc == "IU2" else rng.randint(12000, 24000)
+        L = P + m * bpp
+        n = (2**32 + rng.randint(2**27, 2**29)) // L
+        size = 720 + n * L
+        salt = rng.randrange(2**31)
+        rpc = rng.choice([1, 2, 3, 1024])
+        ranges = [(720 + i * L + P, 720 + (i + 1) * L) for i in range(n)]
+        arr = Array(fs=_VirtualFS(size, salt), url="IMG-virtual", byte_ranges=ranges, shape=(n, m),
+                    dtype="uint16" if tc == "IU2" else "complex64", type_code=tc, records_per_chunk=rpc)
+        mark = (2**32 - 720) // L          # the line that straddles byte 2**32
+        probes = [0, 1, mark - 1, mark, mark + 1, mark + rpc, n - 2, n - 1, rng.randrange(n), rng.randrange(mark, n)]
+        for i in sorted(set(j for j in probes if 0 <= j < n)):
+            evals += 1
+            distinct.add(("huge", tc, L, n, rpc, i))
+            case = {"type_code": tc, "record_length": L, "lines": n, "file_bytes": size, "rpc": rpc, "line": i,
+                    "content": f"byte p = ((p * 2654435761 + {salt}) >> 11) & 0xFF"}
+            try:
+                got = np.asarray(arr[(slice(i, i + 2), slice(None))])
+                want_raw = [virtual_bytes(salt, *ranges[j]) for j in range(i, min(i + 2, n))]
+                if tc == "IU2":
+                    want = np.stack([np.frombuffer(r, dtype=">u2") for r in want_raw])
+                else:
+                    want = np.stack([np.frombuffer(r, dtype=">u4").astype("<u4").view("<f4").view("complex64") if False else
+                                     np.frombuffer(r, dtype=">f4").astype("<f4").view("complex64") for r in want_raw])
+                ok = got.shape == want.shape and (np.array_equal(got.astype(">u2").view("u1"), want.astype(">u2").view("u1")) if tc == "IU2"
+                                                  else np.array_equal(np.ascontiguousarray(got).view("<u4"), np.ascontiguousarray(want).view("<u4")))
+                if not ok:
+                    viol.append({"case": case, "what": f"lines {i}..{i + 1} of a {size}-byte image ({'beyond' if ranges[i][0] >= 2**32 else 'below'} byte 2**32): shape {got.shape} vs {want.shape}, or samples differ from the file content"})
+            except Exception as ex:  # noqa: BLE001
+                viol.append({"case": case, "what": f"loading lines {i}..{i + 1} of a {size}-byte image raised {type(ex).__name__}: {ex}"[:250],
+                             "key": common.failure_site(ex)})
+    return viol, evals, distinct
 
 
 def index_space(n, m, rng, tier):
@@ -190,6 +280,24 @@ def check_c02(seed, tier):
             full = products.twin(prod.images[0])
             for rpc in ([5, 1024] if tier == "quick" else [1, 2, 5, 7, n, 1024]):
                 da = _open(path, records_per_chunk=rpc)["imagery/HV/data"]
+                # slices with larger strides, crossing several chunks with every phase of start against the chunk grid
+                for step in (3, 4, 5, 7, -3, -4, -5, -7):
+                    for start in (None, 0, 1, 2, n - 1, n - 2):
+                        for stop in (None, n - 1, 1):
+                            key = slice(start, stop, step)
+                            if step < 0 and len(range(*key.indices(n))) == 0:
+                                continue   # empty negative-step selections fail inside xarray (recorded known finding)
+                            evals += 1
+                            distinct.add((n, m, level, rpc, "rows", "strided", start, stop, step))
+                            case = {"cfg": cfg, "rpc": rpc, "isel": {"rows": repr(key)}, "kind": "strided-slice"}
+                            try:
+                                gv = da.isel(rows=key).values
+                            except Exception as e:  # noqa: BLE001
+                                viol.append({"case": case, "what": f"lazy selection raises {type(e).__name__}: {str(e)[:100]}", "key": common.failure_site(e)})
+                                continue
+                            want = full[key]
+                            if gv.shape != want.shape or not products.same_bits(gv, want):
+                                viol.append({"case": case, "what": f"rows[{key.start}:{key.stop}:{key.step}]: shape {gv.shape} vs {want.shape} or values differ from NumPy indexing of the loaded image"})
                 for _ in range(60 if tier == "quick" else 400):
                     size, axis = (n, "rows") if rng.random() < 0.8 else (m, "columns")
                     L = rng.randint(4, 8)
